@@ -5,6 +5,7 @@ package main
 import (
 	"encoding/json"
 	"fmt"
+	"math"
 	"math/rand"
 	"sort"
 	"strings"
@@ -82,6 +83,11 @@ func setSeed(r *rand.Rand, m M, key string) {
 	case x == 0:
 	case x <= 2:
 		m[key] = 0
+	case x == 3:
+		// seeds that agree in their low 31 / 32 bits (or differ in sign) are different seeds
+		m[key] = int64(r.Intn(40)) + []int64{1 << 31, 1 << 32, -(1 << 31), (1 << 31) - 1}[r.Intn(4)]
+	case x == 4:
+		m[key] = r.Intn(40)
 	default:
 		m[key] = r.Intn(1000)
 	}
@@ -217,13 +223,25 @@ func genRequest(r *rand.Rand, o genOpts) *genReq {
 	mp := M{}
 	w := M{}
 	used := map[float64]bool{}
+	nearKind := r.Intn(4)
 	for i, id := range ids {
 		x := genWeight(r, o.profile)
 		if o.decimalW {
 			x = float64(1+r.Intn(5)) / 10
 		}
 		if o.nearTiedW {
-			x = 2.5 + float64(i)*1e-7
+			// distinct weights that sit inside any "reasonable" epsilon: 1e-7, 1e-10 or a single ulp apart,
+			// or sums that are equal on paper only (0.1+0.2 vs 0.3)
+			switch nearKind {
+			case 0:
+				x = 2.5 + float64(i)*1e-7
+			case 1:
+				x = 2.5 + float64(i)*1e-10
+			case 2:
+				x = 2.5 + float64(i)*4.440892098500626e-16
+			default:
+				x = []float64{0.1 + 0.2, 0.3, 0.1 + 0.7, 0.8, 0.7 + 0.2, 0.9}[i%6]
+			}
 		}
 		if o.bigNumbers {
 			x = 1200000 + float64(r.Intn(3))
@@ -305,6 +323,9 @@ func genRequest(r *rand.Rand, o genOpts) *genReq {
 	}
 	if r.Intn(8) != 0 {
 		g.M["biasApplyRandomSeed"] = r.Intn(100000) * r.Intn(2)
+		if r.Intn(4) == 0 {
+			setSeed(r, g.M, "biasApplyRandomSeed")
+		}
 	}
 	seq := o.biasSeq
 	if seq == nil && o.nBiases > 0 {
@@ -557,8 +578,13 @@ func genBias(r *rand.Rand, name string, g *genReq, o genOpts, lb, ub *int) M {
 
 // decimalRatio: ratios written as decimals or as j/n, whose product with the criteria count hits or barely misses an integer
 func decimalRatio(r *rand.Rand, n int) float64 {
-	if n > 0 && r.Intn(2) == 0 {
-		return float64(r.Intn(n+1)) / float64(n)
+	if n > 0 {
+		switch r.Intn(4) {
+		case 0:
+			return float64(r.Intn(n+1)) / float64(n)
+		case 1: // j/n cut after ten decimals: the product misses the integer by about 1e-10
+			return math.Floor(float64(r.Intn(n+1))/float64(n)*1e10) / 1e10
+		}
 	}
 	return float64(r.Intn(11)) / 10
 }
